@@ -2138,10 +2138,10 @@ example : afaRead (afaCfg none) (splitLines (afaWrite none exAfaCrMsa))
 
 /-! ### Clustal / Clustal-like
 
-`esl_msafile_clustal_Read` guarantees `n1`, `alen1` (every block has ≥ 1 column), names without white space or NUL, rows of
-`alen` graphic characters / well-formed digital rows.  It does NOT guarantee
-* that a name is not EMPTY (`cluNamesNeB`): a name field that starts with a NUL byte is stored as the empty C string; the
-  writer then prints a line that starts with blanks and the reader rejects it ("invalid alignment line"): `exCluNulIn`;
+`esl_msafile_clustal_Read` guarantees `n1`, `alen1` (every block has ≥ 1 column), NON-EMPTY names without white space or NUL
+(since the repair of C03:reformat:nul-in-name a NUL byte in the name field is eslEFORMAT; before, a name field starting with NUL was
+stored as the empty C string and the writer's output was rejected: `exCluNulIn`, now a regression example), rows of `alen` graphic
+characters / well-formed digital rows.  It does NOT guarantee
 * `notcons` (`cluNotConsTextB` / `cluNotConsDigB a`): a row after the first whose name is made of `.:*` characters and whose
   residues include one of `.:*` can, once the writer cuts the alignment into 60-column blocks, stand alone as a line made of
   `" .:*"` only, which the reader takes for the consensus line: `exCluConsIn` (re-read REJECTED: "last block didn't contain
@@ -2154,28 +2154,28 @@ theorem clustalCfg_valid_of (a : Abc) (ha : a = abcAmino ∨ a = abcDna ∨ a = 
   · exact ⟨by decide +kernel, by decide +kernel⟩
 
 theorem clustal_read_in_domain_text (like : Bool) (lines : List Bytes) (m : Msa) (rest : List Bytes)
-    (h : clustalRead like (clustalCfg none) lines = (.ok m, rest)) (hne : cluNamesNeB m = true) (hnc : cluNotConsTextB m = true) :
+    (h : clustalRead like (clustalCfg none) lines = (.ok m, rest)) (hnc : cluNotConsTextB m = true) :
     ClustalTextWritable m :=
-  clustalRead_domain_text like lines m rest h hne hnc
+  clustalRead_domain_text like lines m rest h hnc
 
 theorem clustal_read_in_domain_digital (like : Bool) (a : Abc) (ha : a = abcAmino ∨ a = abcDna ∨ a = abcRna) (lines : List Bytes)
-    (m : Msa) (rest : List Bytes) (h : clustalRead like (clustalCfg (some a)) lines = (.ok m, rest)) (hne : cluNamesNeB m = true)
+    (m : Msa) (rest : List Bytes) (h : clustalRead like (clustalCfg (some a)) lines = (.ok m, rest))
     (hnc : cluNotConsDigB a m = true) : ClustalDigitalWritable a m :=
-  clustalRead_domain_digital like a (clustalCfg_valid_of a ha) lines m rest h hne hnc
+  clustalRead_domain_digital like a (clustalCfg_valid_of a ha) lines m rest h hnc
 
 /-- **Clustal reformat stability, text mode** (read as Clustal or Clustal-like `like`, written as `like'`) -/
 theorem clustal_reformat_stable_text (like like' : Bool) (lines : List Bytes) (m : Msa) (rest : List Bytes)
-    (h : clustalRead like (clustalCfg none) lines = (.ok m, rest)) (hne : cluNamesNeB m = true) (hnc : cluNotConsTextB m = true) :
+    (h : clustalRead like (clustalCfg none) lines = (.ok m, rest)) (hnc : cluNotConsTextB m = true) :
     clustalRead like' (clustalCfg none) (splitLines (clustalWrite like' none m)) = (.ok (clustalProject (clustalCfg none) m), []) :=
-  clustal_roundtrip_text like' m (clustal_read_in_domain_text like lines m rest h hne hnc)
+  clustal_roundtrip_text like' m (clustal_read_in_domain_text like lines m rest h hnc)
 
 /-- **Clustal reformat stability, digital mode** -/
 theorem clustal_reformat_stable_digital (like like' : Bool) (a : Abc) (ha : a = abcAmino ∨ a = abcDna ∨ a = abcRna)
     (lines : List Bytes) (m : Msa) (rest : List Bytes) (h : clustalRead like (clustalCfg (some a)) lines = (.ok m, rest))
-    (hne : cluNamesNeB m = true) (hnc : cluNotConsDigB a m = true) :
+    (hnc : cluNotConsDigB a m = true) :
     clustalRead like' (clustalCfg (some a)) (splitLines (clustalWrite like' (some a) m))
       = (.ok (clustalProject (clustalCfg (some a)) m), []) :=
-  clustal_roundtrip_digital like' a ha m (clustal_read_in_domain_digital like a ha lines m rest h hne hnc)
+  clustal_roundtrip_digital like' a ha m (clustal_read_in_domain_digital like a ha lines m rest h hnc)
 
 /-- `CLUSTAL W alignment` -/
 def exCluHdr : Bytes := [67, 76, 85, 83, 84, 65, 76, 32, 87, 32, 97, 108, 105, 103, 110, 109, 101, 110, 116]
@@ -2188,22 +2188,21 @@ def exCluInMsa : Msa :=
   { alen := 4, names := [[115, 49], [115, 50]], aseq := [[65, 67, 71, 45], [65, 46, 103, 84]], wgt := [.dflt, .dflt] }
 
 example : clustalRead false (clustalCfg none) (splitLines exCluIn) = (.ok exCluInMsa, []) := by decide +kernel
-example : cluNamesNeB exCluInMsa = true ∧ cluNotConsTextB exCluInMsa = true := by decide +kernel
+example : cluNotConsTextB exCluInMsa = true := by decide +kernel
 example : ClustalTextWritable exCluInMsa :=
-  clustal_read_in_domain_text false (splitLines exCluIn) exCluInMsa [] (by decide +kernel) (by decide +kernel) (by decide +kernel)
+  clustal_read_in_domain_text false (splitLines exCluIn) exCluInMsa [] (by decide +kernel) (by decide +kernel)
 example : clustalRead false (clustalCfg none) (splitLines (clustalWrite false none exCluInMsa)) = (.ok exCluInMsa, []) := by
   decide +kernel
 
-/-- COUNTEREXAMPLE (`cluNamesNeB` is needed): the name field of the row is NUL `x` -/
+/-- REGRESSION (repaired finding C03:reformat:nul-in-name): the name field of the row is NUL `x`; it used to be stored as the EMPTY
+    name (and the writer's output was then rejected); the reader now answers eslEFORMAT "NUL byte in sequence name" -/
 def exCluNulIn : Bytes := exCluHdr ++ [10, 10] ++ [0, 120, 32, 65, 67, 71, 84, 10] ++ [32, 32, 32, 42, 42, 42, 42, 10]
 
-def exCluNulMsa : Msa := { alen := 4, names := [[]], aseq := [[65, 67, 71, 84]], wgt := [.dflt] }
-
-example : clustalRead false (clustalCfg none) (splitLines exCluNulIn) = (.ok exCluNulMsa, []) := by decide +kernel
-example : cluNamesNeB exCluNulMsa = false := by decide +kernel
-example : (match (clustalRead false (clustalCfg none) (splitLines (clustalWrite false none exCluNulMsa))).1 with
-           | .eformat _ => true
-           | _ => false) = true := by decide +kernel
+example : (clustalRead false (clustalCfg none) (splitLines exCluNulIn)).1 = .eformat "NUL byte in sequence name" := by decide +kernel
+/-- … also when the NUL is inside the name (`a` NUL `b`: was stored as `a`) -/
+example : (clustalRead false (clustalCfg none)
+    (splitLines (exCluHdr ++ [10, 10] ++ [97, 0, 98, 32, 65, 67, 71, 84, 10] ++ [32, 32, 32, 32, 42, 42, 42, 42, 10]))).1
+      = .eformat "NUL byte in sequence name" := by decide +kernel
 
 /-- COUNTEREXAMPLE (`cluNotConsTextB` is needed): rows `x` = 61 `A`, `*` = 60 `A` then `*`, in ONE block of 61 columns -/
 def exCluConsIn : Bytes :=
@@ -2213,7 +2212,7 @@ def exCluConsMsa : Msa :=
   { alen := 61, names := [[120], [42]], aseq := [List.replicate 61 65, List.replicate 60 65 ++ [42]], wgt := [.dflt, .dflt] }
 
 example : clustalRead false (clustalCfg none) (splitLines exCluConsIn) = (.ok exCluConsMsa, []) := by decide +kernel
-example : cluNamesNeB exCluConsMsa = true ∧ cluNotConsTextB exCluConsMsa = false := by decide +kernel
+example : cluNotConsTextB exCluConsMsa = false := by decide +kernel
 /-- written in two blocks; the second row of the second block is `*` + blanks + `*` -/
 example : (match (clustalRead false (clustalCfg none) (splitLines (clustalWrite false none exCluConsMsa))).1 with
            | .eformat _ => true
@@ -2221,10 +2220,10 @@ example : (match (clustalRead false (clustalCfg none) (splitLines (clustalWrite 
 
 /-! ### PSI-BLAST
 
-`esl_msafile_psiblast_Read` guarantees `n1`, `alen1`, names without white space or NUL, rows of `alen` symbols / well-formed
+`esl_msafile_psiblast_Read` guarantees `n1`, `alen1`, non-empty names without white space or NUL (a NUL byte in the name field is
+eslEFORMAT since the repair of C03:reformat:nul-in-name; `exPsiNulIn` is a regression example), rows of `alen` symbols / well-formed
 digital rows.  The domain of `psiblast_roundtrip_text/_digital` is the set of alignments on which the WRITER IS THE IDENTITY,
 which is much narrower than what the reader returns; the missing conditions are hypotheses:
-* `cluNamesNeB`: no empty name (a name field starting with NUL; re-read REJECTED, `exPsiNulIn`);
 * `psiRowsUpperB` / `psiRowsDigB a`: no lower-case (insert) residue.  NOT a defect: an input with lower-case residues is
   reformatted faithfully on the model (`exPsiLowerIn`: read ∘ write ∘ read = read), but no round-trip theorem covers it yet;
 * `psiColsOkB` / `psiColsOkDigB a`: the `rf` line the reader builds marks (`x`) every column that holds a residue.  This is
@@ -2237,30 +2236,30 @@ theorem psiblastCfg_valid_of (a : Abc) (ha : a = abcAmino ∨ a = abcDna ∨ a =
   · exact ⟨by decide +kernel, by decide +kernel⟩
 
 theorem psiblast_read_in_domain_text (lines : List Bytes) (m : Msa) (rest : List Bytes)
-    (h : psiblastRead (psiblastCfg none) lines = (.ok m, rest)) (hne : cluNamesNeB m = true) (hup : psiRowsUpperB m = true)
+    (h : psiblastRead (psiblastCfg none) lines = (.ok m, rest)) (hup : psiRowsUpperB m = true)
     (hcol : psiColsOkB m = true) : PsiblastTextWritable m :=
-  psiblastRead_domain_text lines m rest h hne hup hcol
+  psiblastRead_domain_text lines m rest h hup hcol
 
 theorem psiblast_read_in_domain_digital (a : Abc) (ha : a = abcAmino ∨ a = abcDna ∨ a = abcRna) (lines : List Bytes) (m : Msa)
-    (rest : List Bytes) (h : psiblastRead (psiblastCfg (some a)) lines = (.ok m, rest)) (hne : cluNamesNeB m = true)
+    (rest : List Bytes) (h : psiblastRead (psiblastCfg (some a)) lines = (.ok m, rest))
     (hup : psiRowsDigB a m = true) (hcol : psiColsOkDigB a m = true) : PsiblastDigitalWritable a m :=
-  psiblastRead_domain_digital a (psiblastCfg_valid_of a ha) lines m rest h hne hup hcol
+  psiblastRead_domain_digital a (psiblastCfg_valid_of a ha) lines m rest h hup hcol
 
-/-- **PSI-BLAST reformat stability, text mode** (PARTIAL: under the three hypotheses above) -/
+/-- **PSI-BLAST reformat stability, text mode** (PARTIAL: under the two hypotheses above) -/
 theorem psiblast_reformat_stable_text_partial (lines : List Bytes) (m : Msa) (rest : List Bytes)
-    (h : psiblastRead (psiblastCfg none) lines = (.ok m, rest)) (hne : cluNamesNeB m = true) (hup : psiRowsUpperB m = true)
+    (h : psiblastRead (psiblastCfg none) lines = (.ok m, rest)) (hup : psiRowsUpperB m = true)
     (hcol : psiColsOkB m = true) :
     psiblastRead (psiblastCfg none) (splitLines (psiblastWrite none m))
       = (.ok (psiblastProject (psiblastCfg none) (psiRf (fun i => m.aseq.getD i []) m) m), []) :=
-  psiblast_roundtrip_text m (psiblast_read_in_domain_text lines m rest h hne hup hcol)
+  psiblast_roundtrip_text m (psiblast_read_in_domain_text lines m rest h hup hcol)
 
 /-- **PSI-BLAST reformat stability, digital mode** (PARTIAL likewise) -/
 theorem psiblast_reformat_stable_digital_partial (a : Abc) (ha : a = abcAmino ∨ a = abcDna ∨ a = abcRna) (lines : List Bytes)
-    (m : Msa) (rest : List Bytes) (h : psiblastRead (psiblastCfg (some a)) lines = (.ok m, rest)) (hne : cluNamesNeB m = true)
+    (m : Msa) (rest : List Bytes) (h : psiblastRead (psiblastCfg (some a)) lines = (.ok m, rest))
     (hup : psiRowsDigB a m = true) (hcol : psiColsOkDigB a m = true) :
     psiblastRead (psiblastCfg (some a)) (splitLines (psiblastWrite (some a) m))
       = (.ok (psiblastProject (psiblastCfg (some a)) (psiRf (psiDigTxt a m) m) m), []) :=
-  psiblast_roundtrip_digital a ha m (psiblast_read_in_domain_digital a ha lines m rest h hne hup hcol)
+  psiblast_roundtrip_digital a ha m (psiblast_read_in_domain_digital a ha lines m rest h hup hcol)
 
 /-- non-vacuity: `s1 ACG-` / `s2 A-GT` -/
 def exPsiIn : Bytes := [115, 49, 32, 65, 67, 71, 45, 10, 115, 50, 32, 65, 45, 71, 84, 10]
@@ -2270,10 +2269,9 @@ def exPsiInMsa : Msa :=
     rf := some [120, 120, 120, 120] }
 
 example : psiblastRead (psiblastCfg none) (splitLines exPsiIn) = (.ok exPsiInMsa, []) := by decide +kernel
-example : cluNamesNeB exPsiInMsa = true ∧ psiRowsUpperB exPsiInMsa = true ∧ psiColsOkB exPsiInMsa = true := by decide +kernel
+example : psiRowsUpperB exPsiInMsa = true ∧ psiColsOkB exPsiInMsa = true := by decide +kernel
 example : PsiblastTextWritable exPsiInMsa :=
   psiblast_read_in_domain_text (splitLines exPsiIn) exPsiInMsa [] (by decide +kernel) (by decide +kernel) (by decide +kernel)
-    (by decide +kernel)
 example : psiblastRead (psiblastCfg none) (splitLines (psiblastWrite none exPsiInMsa)) = (.ok exPsiInMsa, []) := by decide +kernel
 
 /-- outside the proved domain, yet stable on the model: `s1 ACgT` / `s2 AC-T` (a lower-case insert, `rf` = `xx.x`) -/
@@ -2288,17 +2286,11 @@ example : psiRowsUpperB exPsiLowerMsa = false := by decide +kernel
 example : psiblastRead (psiblastCfg none) (splitLines (psiblastWrite none exPsiLowerMsa)) = (.ok exPsiLowerMsa, []) := by
   decide +kernel
 
-/-- COUNTEREXAMPLE (`cluNamesNeB` is needed): NUL `x ACGT`: the name is stored empty, the written line starts with blanks -/
+/-- REGRESSION (repaired finding C03:reformat:nul-in-name): NUL `x ACGT` - the name used to be stored empty and the written line,
+    starting with blanks, was rejected; the reader now answers eslEFORMAT -/
 def exPsiNulIn : Bytes := [0, 120, 32, 65, 67, 71, 84, 10]
 
-def exPsiNulMsa : Msa := { alen := 4, names := [[]], aseq := [[65, 67, 71, 84]], wgt := [.dflt], rf := some [120, 120, 120, 120] }
-
-example : psiblastRead (psiblastCfg none) (splitLines exPsiNulIn) = (.ok exPsiNulMsa, []) := by decide +kernel
-example : cluNamesNeB exPsiNulMsa = false := by decide +kernel
-example : psiblastWrite none exPsiNulMsa = [32, 32, 65, 67, 71, 84, 10] := by decide +kernel
-example : (match (psiblastRead (psiblastCfg none) (splitLines (psiblastWrite none exPsiNulMsa))).1 with
-           | .eformat _ => true
-           | _ => false) = true := by decide +kernel
+example : (psiblastRead (psiblastCfg none) (splitLines exPsiNulIn)).1 = .eformat "NUL byte in sequence name" := by decide +kernel
 
 /-! ### A2M and aligned FASTA: the condition on the name lines, as a condition on the INPUT
 
